@@ -137,7 +137,7 @@ CHECKS["C05"] = {
     "technique": "Coq proofs that each typing decision equals a declarative table + exhaustive differential execution over the operator/operand-type table + spec verdict oracle",
     "design_ref": "5 C05",
     "note": "Trusted: harness `vh tir` over the synthetic environment E0 (resolution errors of the type map are C17's subject), vlib/tirtok.py. NOT proved: the whole-program statement beyond the "
-            "expression fragment above (names resolving to an implicit this-member, an enum variant or a type; statements: conditions, declarations, return types), and the converse direction (well typed => accepted, which also "
+            "expression fragment above as DERIVATIONS (calls of implicit this-methods, function literals; statements -- these are covered by the code-level theorem), and the converse direction (well typed => accepted, which also "
             "needs the value conditions of the folder); callback-parameter compatibility with the signal is checked under C13.",
 }
 
